@@ -267,6 +267,9 @@ func (e *End) Read(p []byte) (int, error) {
 				e.SawEOF = true
 				e.SawEOFAt = s.Elapsed()
 			}
+			if err != nil && n == 0 {
+				poke(e.rnotify) // likewise for a second goroutine blocked reading this endpoint
+			}
 			if s.Verbose {
 				s.TraceLocked(e.Name + ".R -> " + strconv.Itoa(n) + errStr(err))
 			} else {
@@ -287,7 +290,6 @@ func (e *End) Read(p []byte) (int, error) {
 			case <-tm.C:
 			}
 		}
-		poke(e.rnotify) // as for writes: a second goroutine blocked reading the same endpoint is woken too
 		s.Park(e.Name + ".R+")
 	}
 }
@@ -387,6 +389,12 @@ func (e *End) Write(p []byte) (int, error) {
 		}
 		if err != nil {
 			s.TraceLocked("W" + errStr(err))
+			// Two goroutines can be blocked writing to one endpoint (the relays of two peers of an
+			// upstream group both write to the client) and the notification has one slot: a writer that
+			// leaves with an error - a state every other writer of this endpoint meets too - passes the
+			// notification on, so none of them stays blocked behind a lost wake-up. (Only then: passing
+			// it on after every wake-up would make two waiters wake each other for ever.)
+			poke(e.wnotify)
 			s.Unlock()
 			return total, err
 		}
@@ -431,10 +439,6 @@ func (e *End) Write(p []byte) (int, error) {
 			case <-tm.C:
 			}
 		}
-		// Two goroutines can be blocked writing to one endpoint (the relays of two peers of an upstream
-		// group both write to the client): the notification has one slot, so whoever is woken passes it on.
-		// With nobody else waiting the token stays in the slot and is drained at the top of the loop.
-		poke(e.wnotify)
 		s.Park(e.Name + ".W+")
 	}
 }
